@@ -181,15 +181,41 @@ Proof.
   repeat split; assumption.
 Qed.
 
-(* a hexadecimal escape with more than two digits is counted as two characters by Token::isCChar
-   (replaceEscapeSequences reads at most two hex digits after \x), so the plain-char adjustment is skipped:
-   '\x0ff' on a platform whose plain char is unsigned is reported as -1, its value is 255 *)
-Theorem long_hex_escape_char_token_refuted :
-  exists p s z n, In p Gen_platforms /\ p_sign p = 117 /\
-                  char_literal_to_ll s = Some z /\ narrow_nbytes s = Some 1 /\ token_char_count s = Some n /\
-                  (forall cpp, char_token_value p cpp n z <> char_value_on p 255).
+(* a hexadecimal escape with any number of digits is one character for Token::isCChar (since /repo 483f671;
+   before, at most two digits were read and '\x0ff' counted as two characters) *)
+Lemma skip_while_all pr l : forallb pr l = true -> skip_while pr l = [].
+Proof. induction l as [|a l IH]; [reflexivity|]. cbn [forallb skip_while]. intros H. apply andb_true_iff in H as [-> H]. auto. Qed.
+
+Theorem token_char_count_hex_escape ds : forallb is_xdigit ds = true ->
+  token_char_count (39 :: 92 :: 120 :: ds ++ [39]) = Some 1.
 Proof.
-  exists plat_arm32_wchar_t4, [39; 92; 120; 48; 102; 102; 39], (-1)%Z, 2.
-  split; [vm_compute; tauto|]. split; [reflexivity|]. split; [vm_compute; reflexivity|].
-  split; [vm_compute; reflexivity|]. split; [vm_compute; reflexivity|]. intros cpp. vm_compute. discriminate.
+  intros Hd. unfold token_char_count.
+  change (92 :: 120 :: ds ++ [39]) with ((92 :: 120 :: ds) ++ [39]). rewrite removelast_last.
+  cbn [length escape_count_go]. change (negb (92 =? 92)) with false. cbv iota. change (120 =? 120) with true. cbv iota.
+  rewrite (skip_while_all _ _ Hd). destruct (length ds); reflexivity.
+Qed.
+
+(* the former witness: '\x0ff' on arm32-wchar_t4 is one character and is reported as 255 *)
+Example long_hex_escape_char_token_now :
+  token_char_count [39; 92; 120; 48; 102; 102; 39] = Some 1 /\
+  char_literal_to_ll [39; 92; 120; 48; 102; 102; 39] = Some (-1)%Z /\
+  char_token_value plat_arm32_wchar_t4 false 1 (-1) = char_value_on plat_arm32_wchar_t4 255.
+Proof. vm_compute. repeat split; reflexivity. Qed.
+
+(* every hexadecimal escape of the grammar: value through characterLiteralToLL, count 1, plain-char value *)
+Corollary char_token_value_platform_hex p cpp cs ds :
+  digit_seq 16 cs ds -> cs <> [] -> value_of_digits 16 ds < 256 ->
+  p_char_bit p = 8 -> (p_sign p = 115 \/ p_sign p = 117) ->
+  char_literal_to_ll (39 :: (92 :: 120 :: cs) ++ [39]) = Some (sext_spec 8 (value_of_digits 16 ds)) /\
+  token_char_count (39 :: 92 :: 120 :: cs ++ [39]) = Some 1 /\
+  char_token_value p cpp 1 (sext_spec 8 (value_of_digits 16 ds)) = char_value_on p (value_of_digits 16 ds).
+Proof.
+  intros Hcs Hne Hv Hb Hp.
+  assert (Hx : forallb is_xdigit cs = true).
+  { clear Hne Hv. induction Hcs; [reflexivity|]. cbn [forallb]. rewrite (digit_char_16 _ _ H). exact IHHcs. }
+  assert (Hc : c_char_ext 39 (92 :: 120 :: cs) (value_of_digits 16 ds)).
+  { apply CE_hex; try assumption; try discriminate. intros d Hd. apply digit_char_range in Hd; lia. }
+  pose proof (token_char_count_hex_escape cs Hx) as Hcnt.
+  destruct (char_token_value_platform_ext p cpp (92 :: 120 :: cs) _ Hc Hb Hp Hcnt) as [E1 E2].
+  repeat split; assumption.
 Qed.
